@@ -133,6 +133,23 @@ func c07(r *Run) {
 	runEsc(r, forms, byteInputs(r, r.Thorough(), r.N(1000, 50000), []byte("\"\\\n\r\t\b\f<'\x00\x01\x1f/u")), judge, second)
 	runEsc(r, forms, runeInputs(r, r.N(2000, 100000)), judge, second)
 	regionRel(r, "jsonquote", "json", r.N(1500, 60000))
+	// a JSON print AFTER another print that went through a modifier, on the same context: the value printed
+	// second (empty and missing ones included) must not pick up anything of the first
+	var cases []*RCase
+	vals := []SOp{{Kind: "static", Name: "v", Val: ""}, {Kind: "bytes", Name: "v", Val: []byte{}}, {Kind: "static", Name: "v", Val: nil}, {Kind: "static", Name: "zz", Val: 1},
+		{Kind: "static", Name: "v", Val: "a\"b"}, {Kind: "bytes", Name: "v", Val: []byte("\\x")}, {Kind: "static", Name: "v", Val: int64(0)}}
+	for _, first := range []string{"{%= w|jsonEscape %}|", "{%q= w %}|", "{%j= w %}{%h= w %}|", "{%= w|default(\"x\")|jsonQuote %}|", "{% jsonquote %}{%= w %}{% endjsonquote %}|"} {
+		for _, second := range []string{"{%q= v %}", "{%qq= v %}", "{%j= v %}", "{%jj= v %}", "{%= v|jsonQuote %}", "{%= v|jsonEscape %}", "{% jsonquote %}{%= v %}{% endjsonquote %}", "{% jsonquote %}{%q= v %}{% endjsonquote %}"} {
+			for _, v := range vals {
+				c := &RCase{Tpls: []TplDef{{Key: "main", Src: first + second, KeepFmt: true}}, Meta: map[string]any{"second-print": second}}
+				c.Ops = []SOp{v, {Kind: "static", Name: "w", Val: "Foo\"bar"}, {Kind: "render", Key: "main"}, {Kind: "render", Key: "main"}}
+				cases = append(cases, c)
+				r.Dist["second-print"]++
+			}
+		}
+	}
+	runSessions(r, cases, outputDiffers)
+	regionRaw(r, r.N(1500, 40000))
 }
 
 func attrExpected(in []byte) []byte {
@@ -198,6 +215,7 @@ func c08(r *Run) {
 	runEsc(r, forms, byteInputs(r, false, r.N(1000, 50000), []byte("<>\"'&;#x")), judge, second)
 	runEsc(r, forms, runeInputs(r, r.N(2000, 100000)), judge, second)
 	regionRel(r, "htmlescape", "html", r.N(1500, 60000))
+	regionRaw(r, r.N(1500, 40000))
 }
 
 func natsOf(s string) ([]int, bool) {
